@@ -387,6 +387,8 @@ pub fn run_check<E: Engine>(engine: &E, cfg: &Cfg) -> Outcome {
                     break;
                 }
                 let mut rng = Rng::for_run(cfg.seed, stream, idx);
+                let t_run = Instant::now();
+                let slow_ms: Option<u128> = std::env::var("VERIF_SLOW_MS").ok().and_then(|s| s.parse().ok());
                 let rec = match catch_unwind(AssertUnwindSafe(|| {
                     let case = engine.generate(&mut rng, cfg);
                     engine.execute(&case)
@@ -408,6 +410,11 @@ pub fn run_check<E: Engine>(engine: &E, cfg: &Cfg) -> Outcome {
                         harness_error: Some(panic_message(&p)),
                     },
                 };
+                if let Some(ms) = slow_ms {
+                    if t_run.elapsed().as_millis() > ms {
+                        eprintln!("debug: run {} took {} ms ({} steps)", idx, t_run.elapsed().as_millis(), rec.stats.steps);
+                    }
+                }
                 records.lock().unwrap().push(rec);
             });
         }
